@@ -20,7 +20,9 @@ class SchedTimeout(Exception):
 
 
 class Scheduler:
-    def __init__(self, files, choose, expected, timeout=20.0):
+    def __init__(self, files, choose, expected, timeout=20.0, funcs=None, first_only=None):
+        self.funcs = set(funcs) if funcs else None  # optional: only lines of these functions are scheduling points
+        self.first_only = set(first_only) if first_only else set()  # of these functions only the first line of each call
         self.files = tuple(files)
         self.choose = choose
         self.expected = expected  # number of controlled threads to wait for before starting
@@ -75,8 +77,19 @@ class Scheduler:
 
     def _global(self, frame, event, arg):
         if event == "call" and self._match(frame.f_code.co_filename):
+            name = frame.f_code.co_name
+            if name in self.first_only:
+                return self._first_line
+            if self.funcs is not None and name not in self.funcs:
+                return None
             return self._local
         return None
+
+    def _first_line(self, frame, event, arg):
+        if event == "line":
+            frame.f_trace_lines = False  # no further line events for this call
+            self.point()
+        return self._first_line
 
     def _local(self, frame, event, arg):
         if event == "line":
